@@ -57,7 +57,7 @@ type Policy struct {
 
 // LayoutFeatures - names of all variation points
 var LayoutFeatures = []string{"quote-style", "cmp-word", "assign-word", "member-de", "let-word", "prop-word", "pre-line", "inner-break",
-	"cont-indent", "comment-indent", "optional-comma", "extra-space", "opt-space", "ascii-twin", "backtick-id", "trail-comment", "final-eol", "raw-linebreak", "inner-blank", "blank-spaces"}
+	"cont-indent", "comment-indent", "optional-comma", "extra-space", "opt-space", "ascii-twin", "backtick-id", "trail-comment", "final-eol", "raw-linebreak", "inner-blank", "blank-spaces", "stmt-sep"}
 
 func (p *Policy) pick(n int, what string) int {
 	if p == nil || !p.Rich || n <= 1 {
@@ -630,39 +630,69 @@ func Layout(lines []Line, pol *Policy) (string, LineMap) {
 	lm := LineMap{}
 	var b strings.Builder
 	phys := 0
-	for li, ln := range lines {
-		ind := strings.Repeat(unit, ln.Indent)
-		// optional blank lines / comment lines before this line (a comment line may carry any
-		// valid indentation: comments are not statements)
-		cind := ind
-		if k := pol.pick(ln.Indent+3, "comment-indent"); k > 0 {
-			cind = strings.Repeat(unit, k-1)
+	joined := false // this line continues the physical line of the one before it, after a ；
+	simple := func(l Line) bool {
+		if l.IsRaw || len(l.Toks) == 0 {
+			return false
 		}
-		switch pol.pick(6, "pre-line") {
-		case 1:
-			// a blank line - which may hold white space of any kind and amount
-			b.WriteString([]string{"", "  ", "\t", " \t ", "       ", "\u3000"}[pol.pick(6, "blank-spaces")])
-			b.WriteString(eol)
-			phys++
-		case 2:
-			b.WriteString(cind + "注：说明" + eol)
-			phys++
-		case 3:
-			b.WriteString(cind + "// note" + eol)
-			phys++
-		case 4:
-			if li > 0 {
-				b.WriteString(cind + "/* 多行" + eol + "   注释 */" + eol)
+		if last := l.Toks[len(l.Toks)-1].S; last == "：" || last == "？" {
+			return false
+		}
+		switch l.Stmt.(type) {
+		case *Let, *ExprStmt, *Import, *Break, *Continue:
+			return true
+		}
+		return false
+	}
+	for li, ln := range lines {
+		if joined {
+			joined = false
+			if ln.Stmt != nil {
+				lm[ln.Stmt] = phys
+			}
+			goto body
+		}
+		{
+			ind := strings.Repeat(unit, ln.Indent)
+			// optional blank lines / comment lines before this line (a comment line may carry any
+			// valid indentation: comments are not statements)
+			cind := ind
+			if k := pol.pick(ln.Indent+3, "comment-indent"); k > 0 {
+				cind = strings.Repeat(unit, k-1)
+			}
+			switch pol.pick(6, "pre-line") {
+			case 1:
+				// a blank line - which may hold white space of any kind and amount
+				b.WriteString([]string{"", "  ", "\t", " \t ", "       ", "\u3000"}[pol.pick(6, "blank-spaces")])
+				b.WriteString(eol)
+				phys++
+			case 2:
+				b.WriteString(cind + "注：说明" + eol)
+				phys++
+			case 3:
+				b.WriteString(cind + "// note" + eol)
+				phys++
+			case 4:
+				if li > 0 {
+					b.WriteString(cind + "/* 多行" + eol + "   注释 */" + eol)
+					phys += 2
+				}
+			case 5:
+				b.WriteString(cind + "注12：「说明" + eol + "文字」" + eol)
 				phys += 2
 			}
-		case 5:
-			b.WriteString(cind + "注12：「说明" + eol + "文字」" + eol)
-			phys += 2
+			if ln.Stmt != nil {
+				lm[ln.Stmt] = phys
+			}
+			b.WriteString(ind)
 		}
-		if ln.Stmt != nil {
-			lm[ln.Stmt] = phys
-		}
-		b.WriteString(ind)
+	body:
+		// statements are separated by line breaks or by ；: two simple statements of the same
+		// block may share a line
+		// (not after a line break inside this statement: whether what follows a ； on a
+		// continuation line is indented like that line or like the statement is not stated)
+		joinNext := li+1 < len(lines) && simple(ln) && simple(lines[li+1]) && lines[li+1].Indent == ln.Indent && pol.pick(5, "stmt-sep") == 1
+		brokeInLine := false
 		if ln.IsRaw {
 			b.WriteString(ln.Raw)
 		} else {
@@ -698,6 +728,7 @@ func Layout(lines []Line, pol *Policy) (string, LineMap) {
 						}
 						b.WriteString(strings.Repeat(unit, ln.Indent+extra))
 						broke = true
+						brokeInLine = true
 					}
 					if !broke && commaAllowed(prev, t) && pol.pick(12, "optional-comma") == 1 {
 						b.WriteString("，")
@@ -734,6 +765,11 @@ func Layout(lines []Line, pol *Policy) (string, LineMap) {
 				case "）", "】", "}":
 					depth--
 				}
+			}
+			if joinNext && !brokeInLine {
+				b.WriteString([]string{"；", " ； ", "；；", "； "}[pol.pick(4, "stmt-sep-form")])
+				joined = true
+				continue
 			}
 			// trailing comment
 			switch pol.pick(6, "trail-comment") {
